@@ -18,6 +18,10 @@ func init() {
 			seed = 1
 		}
 		spec := gen.Spec{Seed: seed, Index: i, Hostile: i%3 != 0, Tests: i%2 == 0, Excluded: i%4 == 1, Impl: i%5 == 0, PerPair: 12}
+		if os.Getenv("VERIF_SAMENAMES") != "" {
+			spec.SameNames = true
+			spec.Transit = true
+		}
 		if os.Getenv("VERIF_EXOTIC") != "" {
 			spec.Exotic = true
 		}
